@@ -80,6 +80,14 @@ static void viol(Counters &c, const std::string &sig, const std::string &replay,
     printf("VIOLATED %s :: [%s] %s\n", sig.c_str(), replay.c_str(), detail.c_str());
 }
 
+// in replay mode: show got/want for the first comparisons of the case
+static void rp(const std::string &line)
+{
+  static int n = 0;
+  if (vr::replaying() && n++ < 80)
+    printf("  %s\n", line.c_str());
+}
+
 static const char *cls_total(u128 total)
 {
   return total < ((u128)1 << 31) ? "total<2^31" : total < ((u128)1 << 32) ? "2^31<=total<2^32" : "total>=2^32";
@@ -156,6 +164,7 @@ static void check_seq3(u64 dx, u64 dy, u64 dz)
           C.states++;
           C.trans += 4;
           C.obs(got);
+          rp("flatten" + s3u(x, y, z) + " got " + std::to_string(got) + " want " + s128(want));
           if ((u128)got != want)
             viol(C, "multidim_index_sequence<3>::flatten|differs from x+dx*(y+dy*z) in 128 bits|" + cls, spec,
                 "dims " + s3u(dx, dy, dz) + " coords " + s3u(x, y, z) + " got " + std::to_string(got) + " want " + s128(want));
@@ -178,6 +187,7 @@ static void check_seq3(u64 dx, u64 dy, u64 dz)
       C.states++;
       C.trans += 3;
       C.obs(got.x * 31 + got.y * 17 + got.z);
+      rp("reshape(" + std::to_string(i) + ") got " + s3u(got.x, got.y, got.z) + " want " + s3u(wx, wy, wz));
       if (!(got.x == wx && got.y == wy && got.z == wz))
         viol(C, "multidim_index_sequence<3>::reshape|differs from (i%dx,(i/dx)%dy,i/(dx*dy))|" + cls, spec,
             "dims " + s3u(dx, dy, dz) + " index " + std::to_string(i) + " got " + s3u(got.x, got.y, got.z) + " want " + s3u(wx, wy, wz));
@@ -261,6 +271,7 @@ static void check_seq2(u64 dx, u64 dy)
         C.states++;
         C.trans += 4;
         C.obs(got);
+        rp("flatten" + s2(x, y) + " got " + std::to_string(got) + " want " + s128(want));
         if ((u128)got != want)
           viol(C, "multidim_index_sequence<2>::flatten|differs from x+dx*y in 128 bits|" + cls, spec,
               "dims " + s2(dx, dy) + " coords " + s2(x, y) + " got " + std::to_string(got) + " want " + s128(want));
@@ -283,6 +294,7 @@ static void check_seq2(u64 dx, u64 dy)
       C.states++;
       C.trans += 3;
       C.obs(got.x * 31 + got.y);
+      rp("reshape(" + std::to_string(i) + ") got " + s2(got.x, got.y) + " want " + s2(wx, wy));
       if (!(got.x == wx && got.y == wy))
         viol(C, "multidim_index_sequence<2>::reshape|differs from (i%dx,i/dx)|" + cls, spec,
             "dims " + s2(dx, dy) + " index " + std::to_string(i) + " got " + s2(got.x, got.y) + " want " + s2(wx, wy));
@@ -371,6 +383,7 @@ static void check_v3i(int dx, int dy, int dz)
         C.states++;
         C.trans += 5;
         C.obs(got);
+        rp("longIndex" + s3(c) + " got " + std::to_string(got) + " indexOf " + std::to_string(got2) + " want " + s128(want));
         if ((u128)got != want)
           viol(C, "array3D::longIndex|differs from x+dx*(y+dy*z) in 128 bits|" + cls, spec,
               sd + " coords " + s3(c) + " got " + std::to_string(got) + " want " + s128(want));
@@ -395,6 +408,7 @@ static void check_v3i(int dx, int dy, int dz)
     C.states++;
     C.trans += 3;
     C.obs((uint64_t)got.x * 31 + (uint64_t)got.y * 17 + (uint64_t)got.z);
+    rp("coordsOf(" + std::to_string(i) + ") got " + s3(got) + " want " + s3(wx, wy, wz));
     if (!(got.x == wx && got.y == wy && got.z == wz))
       viol(C, "array3D::coordsOf|differs from (i%dx,(i/dx)%dy,i/(dx*dy))|" + cls, spec,
           sd + " index " + std::to_string(i) + " got " + s3(got) + " want " + s3(wx, wy, wz));
@@ -443,6 +457,12 @@ static void check_foreach(int lx, int ly, int lz, int ux, int uy, int uz)
     C.obs(seen.size());
     for (auto &v : seen)
       C.obs((uint64_t)(v.x + 8) * 4096 + (v.y + 8) * 64 + (v.z + 8));
+    {
+      std::string l = std::string(fn) + " visited " + std::to_string(seen.size()) + " (want " + std::to_string(want.size()) + "):";
+      for (size_t k = 0; k < seen.size() && k < 12; k++)
+        l += " " + s3(seen[k]);
+      rp(l);
+    }
     if (seen.size() != want.size())
       viol(C, std::string(fn) + "|number of visits differs from the number of cells in [lower,upper)|" + cls, spec,
           "lower " + s3(lo) + " upper " + s3(up) + " visits " + std::to_string(seen.size()) + " want " + std::to_string(want.size()));
@@ -649,6 +669,8 @@ static void check_actual(int dx, int dy, int dz)
           C.states++;
           C.trans++;
           C.obs((uint64_t)(double)g);
+          if (ext == 0 && (x < 0 || y < 0 || z < 0 || x >= dx || y >= dy || z >= dz))
+            rp("get" + s3(x, y, z) + " = " + sval(g) + " want " + sval(w));
           if (!(g == w)) {
             const bool inside = x >= 0 && x < dx && y >= 0 && y < dy && z >= 0 && z < dz;
             viol(C, A + "::get|" + (inside ? "wrong cell for a coordinate inside the extent|" : "coordinate outside the extent is not clamped to the nearest cell|") + cls, spec,
@@ -717,6 +739,8 @@ static void check_shift(int dx, int dy, int dz, const std::vector<ll> &only)
               C.states++;
               C.trans += 2;
               C.obs((uint64_t)gp);
+              if (!only.empty())
+                rp("get" + s3(x, y, z) + " = " + sval(g) + " want " + sval(m.at(wx, wy, wz)) + "; read cell " + decode(gp) + " want " + s3(wx, wy, wz));
               if (!(g == m.at(wx, wy, wz)))
                 viol(C, A + "::get|value is not the one of cell (where+shift) mod size|" + cls, spec,
                     "dims " + s3(dims) + " shift " + s3(sx, sy, sz) + " get" + s3(x, y, z) + " = " + sval(g) + " want " + sval(m.at(wx, wy, wz)) + " (cell " + s3(wx, wy, wz) + ")");
@@ -774,6 +798,8 @@ static void check_subbox(int dx, int dy, int dz, const std::vector<ll> &only)
                     C.states++;
                     C.trans += 2;
                     C.obs((uint64_t)gp);
+                    if (!only.empty())
+                      rp("get" + s3(x, y, z) + " = " + sval(g) + " want " + sval(w) + "; read cell " + decode(gp) + " want " + s3(x + lx, y + ly, z + lz));
                     if (!(g == w))
                       viol(C, A + "::get|value is not the one of cell where+clipBox.lower|" + cls, spec,
                           "dims " + s3(dims) + " clip " + s3(clip.lower) + ".." + s3(clip.upper) + " get" + s3(x, y, z) + " = " + sval(g) + " want " + sval(w));
@@ -837,6 +863,7 @@ static void check_access(int dx, int dy, int dz)
         C.states++;
         C.trans += 2;
         C.obs((uint64_t)(ll)g);
+        rp("get" + s3(x, y, z) + " = " + sval(g) + " want " + sval((double)want) + " (underlying " + sval(m.at(x, y, z)) + "); read cell " + decode(gp));
         if (!((long double)g == want))
           viol(C, A + "::get|value is not the converted value of the same cell|any", spec,
               "dims " + s3(dims) + " get" + s3(x, y, z) + " = " + sval(g) + " want " + sval((double)want) + " (underlying " + sval(m.at(x, y, z)) + ")");
@@ -882,6 +909,7 @@ static void check_mslice(int dx, int dy, int n, int sd)
         C.states++;
         C.trans += 2;
         C.obs((uint64_t)gp);
+        rp("get" + s3(x, y, z) + " = " + sval(g) + " want " + sval(w) + "; read cell " + decode(gp));
         if (!(g == w))
           viol(C, A + "::get|value is not cell (x,y,0) of slice z|" + cls, spec,
               "slices " + sll(n) + " of " + s3(dx, dy, sd) + " get" + s3(x, y, z) + " = " + sval(g) + " want " + sval(w));
@@ -981,6 +1009,8 @@ static void check_vrange(int dx, int dy, int dz, const std::vector<ll> &only)
                   C.states++;
                   C.trans += 2;
                   C.obs((uint64_t)(ll)(r.lower * 4) * 1024 + (uint64_t)(ll)(r.upper * 4));
+                  if (only.size() >= 7)
+                    rp(std::string(iname[k]) + " getValueRange" + s3(bx, by, bz) + ".." + s3(ex, ey, ez) + " = [" + sval(r.lower) + "," + sval(r.upper) + "] want [" + sval(lo) + "," + sval(hi) + "]");
                   if (!(r.lower <= lo && r.upper >= hi))
                     viol(C, std::string("Array3D::getValueRange(begin,end)|does not bound every value of the region|") + pcls + ", " + rcls, spec,
                         std::string(iname[k]) + " dims " + s3(dims) + " region " + s3(bx, by, bz) + ".." + s3(ex, ey, ez) + " got [" + sval(r.lower) + "," + sval(r.upper) + "] want [" +
